@@ -63,6 +63,10 @@ def cases(tier, seed):
     yield dict(kind='inject', arrays=f32_arrays, maxN=2, f32=True)
     for a in f32_arrays:
         yield dict(kind='binary', arrays=[a], L=2, f32=True)
+    # cumulative boundary exactly at the largest double below 1 (the draw 1 - 2^-53 belongs to the LAST positive-rate bin)
+    yield dict(kind='inject', arrays=[[9007199254740991.0, 1.0], [0.5, 0.5 - 2.0 ** -53, 0.0, 2.0 ** -53], [1.0, 9007199254740991.0]], maxN=2)
+    # injected random-number matrices with MORE rows than num_simulations (a pre-generated pool): the first num_simulations rows are the run
+    yield dict(kind='pool')
     # MANY events on FEW bins: every array of length 1..3 over a 4-letter alphabet, N in {9, 17, 33, 100} draws cycling over
     # the whole draw alphabet (0, every cumulative boundary and its neighbours, midpoints, the top double)
     few = [list(a) for n in (1, 2, 3) for a in itertools.product([0.0, 0.3, 0.7, 1e3], repeat=n) if any(x > 0 for x in a)]
@@ -167,6 +171,19 @@ def check_quantile(res, failures, site, rep):
                              f'quantile {q} but #{{sim<=obs}}/num_simulations = {want} (obs={obs}, sims={td[:6]}...)', rep))
 
 
+def sharpen(allowed, call, F, rates):
+    """When the cumulative weights the library itself used are EXACTLY the exact cumulative distribution (every partial sum
+    representable: no round-off to concede), each draw has one bin: the interval [F_(k-1), F_k) that contains it."""
+    from fractions import Fraction
+    w = call.get('weights')
+    try:
+        if w is None or len(w) != len(rates) or any(Fraction(float(w[k])) != F[k + 1] for k in range(len(rates))):
+            return allowed
+    except Exception:
+        return allowed
+    return {u: [rs.strict_bin(u, F, rates)] for u in allowed}
+
+
 def placement_ok_cached(out, t, allowed):
     target = [int(c) for c in out]
     if sum(target) != len(t):
@@ -245,7 +262,7 @@ def run_inject(case, failures, hsh):
                     zr = [k for k, r in enumerate(rates) if r <= 0 and out[k] > 0]
                     if zr:
                         failures.append(Fail(f'{site}|event-in-zero-rate-bin|{cls}', f'draws {list(t)} -> simulated counts {out.tolist()} with rates {rates}', r1))
-                    elif not placement_ok_cached(out, t, allowed):
+                    elif not placement_ok_cached(out, t, sharpen(allowed, call, F, rates)):
                         failures.append(Fail(f'{site}|draw-placed-outside-its-cumulative-interval|{cls}',
                                              f'draws {list(t)} -> counts {out.tolist()}; rates {rates}; exact cdf {[float(f) for f in F]}', r1))
                     if has_zero or any(special[u] for u in t):
@@ -275,7 +292,7 @@ def run_inject1(case, failures, hsh):
         failures.append(Fail(f'{site}|wrong-event-count|{cls}', f'{out.tolist()}', case))
     elif [k for k, r in enumerate(rates) if r <= 0 and out[k] > 0]:
         failures.append(Fail(f'{site}|event-in-zero-rate-bin|{cls}', f'draws {t} -> {out.tolist()} rates {rates}', case))
-    elif not rs.placement_ok(out, t, F, rates):
+    elif not placement_ok_cached(out, tuple(t), sharpen({u: rs.allowed_bins(u, F, rates) for u in t}, spy.calls[0], F, rates)):
         failures.append(Fail(f'{site}|draw-placed-outside-its-cumulative-interval|{cls}', f'draws {t} -> {out.tolist()} rates {rates}', case))
     if N:
         check_quantile(res, failures, site, case)
@@ -580,6 +597,38 @@ def run_many(case, failures, hsh):
     return evals, evals, len(case['arrays'])
 
 
+def run_pool(case, failures, hsh):
+    from csep.core import poisson_evaluations as pe, binomial_evaluations as be, brier_evaluations as br
+    evals = 0
+    rates = [0.3, 0.0, 0.7, 2.0]
+    mids = rs.midpoints(rates)
+    for test in ('CL', 'S', 'M', 'bS', 'bCL', 'Br'):
+        for ns, rows in ((1, 3), (2, 5), (3, 3), (4, 9)):
+            fc, cat = setup(rates, 'CL' if test in ('CL', 'bCL', 'Br') else ('S' if test in ('S', 'bS') else 'M'), 2)
+            # two draws per row, in two DIFFERENT positive-rate bins (the binary tests need distinct cells from injected numbers)
+            prs = [(a, b) for a in mids for b in mids if a != b]
+            pool = numpy.array([prs[r % len(prs)] for r in range(rows)], dtype=float)
+            if test in ('bS', 'bCL', 'Br'):
+                pool = pool[:, :1].copy()          # the observed catalog has ONE active cell: one draw per simulated catalog
+            assert len(mids) == 3
+            site = f'{public(test).__module__.split(".")[-1]}.{public(test).__name__}'
+            rep = dict(kind='pool')
+            try:
+                res = public(test)(fc, cat, num_simulations=ns, random_numbers=pool)
+                ref_ = public(test)(fc, cat, num_simulations=ns, random_numbers=pool[:ns].copy())
+            except Exception as e:
+                failures.append(Fail(f'{site}|{type(e).__name__}|pool-of-{rows}-rows-for-{ns}-simulations', f'{type(e).__name__}: {e}', rep))
+                continue
+            evals += 2
+            td, td0 = [float(x) for x in res.test_distribution], [float(x) for x in ref_.test_distribution]
+            hsh.update(repr((test, ns, rows, td)).encode())
+            if len(td) != ns or td != td0 or float(res.quantile) != float(ref_.quantile):
+                failures.append(Fail(f'{site}|result-depends-on-unused-rows-of-the-random-number-pool|any',
+                                     f'num_simulations={ns}, {rows} rows given: {len(td)} simulated statistics {td[:6]}, quantile {float(res.quantile)}; with exactly {ns} rows: {td0}, quantile {float(ref_.quantile)}', rep))
+            check_quantile(res, failures, site, rep)
+    return evals, evals, 24
+
+
 def run_large(case, failures, hsh):
     from csep.core import poisson_evaluations as pe, binomial_evaluations as be, brier_evaluations as br
     n, pat = case['n'], case['pattern']
@@ -642,7 +691,7 @@ def run_case(case):
     numpy.random.seed(13579)
     k = case['kind']
     fn = {'inject': run_inject, 'inject1': run_inject1, 'ltest': run_ltest, 'ltest1': lambda c, f, h: run_ltest(dict(arrays=[c['rates']]), f, h),
-          'binary': run_binary, 'binary1': run_binary1, 'seed': run_seed, 'inject_multi': run_inject_multi, 'large': run_large, 'many': run_many}[k]
+          'binary': run_binary, 'binary1': run_binary1, 'seed': run_seed, 'inject_multi': run_inject_multi, 'large': run_large, 'many': run_many, 'pool': run_pool}[k]
     evals, nontriv, states = fn(case, failures, hsh)
     seen, uniq = set(), []
     for f in failures:
